@@ -126,5 +126,9 @@ def jobs(tier):
 
 
 def main(tier):
-    return common.run_space_check("C01", tier, jobs(tier), RULE, ASSUME,
-                                  budget_s=100 if tier == "quick" else 1500)
+    js = jobs(tier)
+    # built in two stages with a throw-away solve in between: state left in the problem / tasks by an earlier solver
+    js += common.staged([j for j in js if j["family"].startswith(("pair", "with/"))], stride=2 if tier == "quick" else 1, kinds=("solve", "init"),
+                        cuts="alt" if tier == "quick" else "all")
+    return common.run_space_check("C01", tier, js, RULE, ASSUME,
+                                  budget_s=480 if tier == "quick" else 3000)
